@@ -779,18 +779,33 @@ func init() {
 // ruleC02ColumnNameComplete: every component of a dotted column reference reaches the selector.
 func ruleC02ColumnNameComplete(c *Ctx) {
 	c.Doc("c02.column-name-complete", "column references (BuildColumnName, and the join's own reader of ON columns extractColumnsFromExpr): the parser stores a.b.c as ColName{Qualifier: TableName{Qualifier: a, Name: b}, Name: c}; the builder reads all three name fields (Name, Qualifier.Name, Qualifier.Qualifier) and both of its string results derive from them — dropping the outermost component makes `n.x.y` read the unrelated column `x.y`")
-	for _, fname := range []string{"BuildColumnName", "extractColumnsFromExpr"} {
-		c.columnNameComplete(fname)
+	// found by what they do, not by name: every module function that reads the qualifier of a *sqlparser.ColName
+	// (it builds a name out of the node)
+	n := 0
+	for _, f := range c.P.pkgFuncs(modPath) {
+		if f.Parent() != nil || len(f.Blocks) == 0 {
+			continue
+		}
+		builds := false
+		allInstrs(f, func(_ *ssa.BasicBlock, in ssa.Instruction) {
+			fa, ok := in.(*ssa.FieldAddr)
+			if ok && strings.HasSuffix(shortType(fa.X.Type()), "sqlparser.ColName") && fieldName(fa.X.Type(), fa.Field) == "Qualifier" {
+				builds = true
+			}
+		})
+		if builds {
+			n++
+			c.columnNameComplete(f)
+		}
+	}
+	if n < 2 {
+		c.Unknown("c02.column-name-complete", "builders", "-", fmt.Sprintf("only %d functions read the qualifier of a column node (the expression path and the join's ON reader expected)", n))
 	}
 }
 
-// columnNameComplete: the named function reads every component of a (possibly three-part) column reference.
-func (c *Ctx) columnNameComplete(fname string) {
-	f := c.P.Func(modPath, fname)
-	if f == nil {
-		c.Unknown("c02.column-name-complete", fname, "-", "anchor lost")
-		return
-	}
+// columnNameComplete: the function reads every component of a (possibly three-part) column reference.
+func (c *Ctx) columnNameComplete(f *ssa.Function) {
+	fname := c.P.funcKey(f)
 	c.Fn(fname)
 	read := map[string]bool{}
 	allInstrs(f, func(_ *ssa.BasicBlock, in ssa.Instruction) {
